@@ -226,7 +226,10 @@ def run(check, an: Analysis):
                 for index, event in enumerate(path.events):
                     if event.node is not node or event.kind != 'call':
                         continue
-                    if _is_dispatch_argument(fn, node):
+                    if _is_dispatch_argument(fn, node) or any(
+                            later.kind == 'call' and is_call_to(later, 'schedule')
+                            and isinstance(later.node, ast.Call) and node in later.node.args
+                            for later in path.events[index + 1:index + 4]):
                         how.add('dispatched-compensation')
                         continue
                     n_sites += 1
